@@ -55,7 +55,7 @@ def gen_case(rng, tier):
     channel = rng.choice(["nt", "nt", "tsv", "turtle_iter", "turtle", "turtle", "xml", "json-ld", "rdflib_graph", "rdflib_graph",
                           "endpoint_on", "endpoint_off", "endpoint_off", "endpoint_deep", "endpoint_deep", "shape_map_local"])
     endpoint = channel.startswith("endpoint")
-    kinds = ("node", "str", "int", "iri", "iri2") if (endpoint or channel == "turtle_iter") else ("node", "str", "int", "lang", "date", "iri", "iri2")
+    kinds = ("node", "str", "int", "iri", "iri2") if (endpoint or channel == "turtle_iter") else ("node", "str", "int", "lang", "date", "iri", "iri2", "cdt")
     n_nodes = rng.choice([3, 4, 6, 8, 10]) if tier == "quick" else rng.choice([3, 4, 6, 8, 10, 16, 24])
     # tie-prone graphs: few distinct structures, so that equally frequent constraints abound
     triples = gen.gen_graph(rng, n_nodes=n_nodes, n_classes=rng.randint(1, 3), n_props=rng.randint(2, 5), kinds=kinds,
